@@ -364,3 +364,54 @@ Proof.
       * split; [lia|]. right. auto.
   - apply pc_only; auto; rewrite ?Hpc; try reflexivity. intros _. cbn. auto.
 Qed.
+
+(* ---- callouts and wake-ups: only the history / the thread events change ---- *)
+Lemma step_log W s s1 t p' : Inv W s -> same1 s s1 ->
+  holds p' = holds (pcs s t) -> owns p' = owns (pcs s t) -> toks p' = toks (pcs s t) ->
+  (waitpc (pcs s t) = true -> waitpc p' = true) ->
+  (owns p' = true -> pcinv W s p') ->
+  Inv W (set_pc s1 t p').
+Proof.
+  intros HI S Eh Eo Ek Hw Hp. pose proof S as (E1 & E2 & E3 & E4 & E5 & E6 & E7 & E8 & E9 & E10 & E11).
+  apply pc_only; rewrite ?E5; auto.
+  - apply (same1_inv W s s1 S HI).
+  - intros H. apply (same1_pcinv W s s1 _ S). auto.
+Qed.
+
+Ltac same1_tac := unfold same1; cbn; repeat split; reflexivity.
+
+Lemma step_callouts W s t s' : Inv W s ->
+  (exists i, pcs s t = R_call i /\ s' = set_pc (set_started s (i :: started s)) t (R_incall i)) \/
+  (exists i, pcs s t = R_incall i /\ s' = set_pc (set_finished s (i :: finished s)) t NBC) \/
+  (exists i, pcs s t = B_call i /\ s' = set_pc (set_started s (i :: started s)) t (B_incall i)) \/
+  (exists i, pcs s t = B_incall i /\ s' = set_pc (set_finished s (i :: finished s)) t (BC_tail RIdle)) \/
+  (exists op i, pcs s t = W_call op i /\ s' = set_pc (set_started s (i :: started s)) t (W_incall op i)) \/
+  (exists op i, pcs s t = W_incall op i /\ s' = set_pc (set_finished s (i :: finished s)) t (W_next op IN_BARRIER)) ->
+  Inv W s'.
+Proof.
+  intros HI [(i & Hpc & ->)|[(i & Hpc & ->)|[(i & Hpc & ->)|[(i & Hpc & ->)|[(op & i & Hpc & ->)|(op & i & Hpc & ->)]]]]].
+  - apply (step_log W s); auto; [same1_tac|..]; rewrite ?Hpc; try reflexivity; try discriminate.
+  - apply (step_log W s); auto; [same1_tac|..]; rewrite ?Hpc; try reflexivity; try discriminate.
+  - inv_pc HI t Hpc. apply (step_log W s); auto; [same1_tac|..]; rewrite ?Hpc; try reflexivity; auto.
+  - inv_pc HI t Hpc. apply (step_log W s); auto; [same1_tac|..]; rewrite ?Hpc; try reflexivity; auto.
+  - inv_pc HI t Hpc. apply (step_log W s); auto; [same1_tac|..]; rewrite ?Hpc; try reflexivity; auto.
+  - inv_pc HI t Hpc. apply (step_log W s); auto; [same1_tac|..]; rewrite ?Hpc; try reflexivity; auto.
+    intros _. cbn. destruct Hi. auto.
+Qed.
+
+Lemma step_wakes W s t s' : Inv W s ->
+  (exists k u, pcs s t = DBW_wake k u /\ s' = set_pc (set_woken s (upd (woken s) u true)) t (after k)) \/
+  (exists k ow u nx, pcs s t = DN_wake k ow u nx /\ s' = set_pc (set_woken s (upd (woken s) u true)) t (dn_cont k ow nx)) \/
+  (exists op owned u, pcs s t = W_wake op owned u /\ s' = set_pc (set_woken s (upd (woken s) u true)) t (W_next op owned)) ->
+  Inv W s'.
+Proof.
+  intros HI [(k & u & Hpc & ->)|[(k & ow & u & nx & Hpc & ->)|(op & owned & u & Hpc & ->)]].
+  - apply (step_log W s); auto; [same1_tac|..]; rewrite ?Hpc; destruct k; cbn; try reflexivity; try discriminate; auto.
+  - inv_pc HI t Hpc. destruct Hi as (B & D & O & P & N & N1 & N2).
+    apply (step_log W s); auto; [same1_tac|..]; rewrite ?Hpc; unfold dn_cont; destruct (Z.eqb_spec nx 1); cbn; try reflexivity; auto.
+    + intros _. repeat split; auto.
+    + intros _. repeat split; auto.
+  - inv_pc HI t Hpc. destruct Hi as (E & B & O & P).
+    apply (step_log W s); auto; [same1_tac|..]; rewrite ?Hpc; try reflexivity; auto.
+    intros _. cbn. split; [exact E|]. right. repeat split; auto. intros X. rewrite P in X. discriminate.
+Qed.
